@@ -32,7 +32,7 @@ structure FnOK (G : GCtx) (g : String) (fd : FnDef) (I : FnInfo) (stmts : List S
   vars : ∀ m ∈ codeVars (cgFn G.mod I.φ fd stmts (some e) I.scopes0 I.vm0 I.lm0), I.N m
   slot : ∀ m, I.N m → I.σ m < (fnParts G.mod I.φ fd stmts (some e) I.scopes0 I.vm0 I.lm0).envE.nv
   frame : (fnParts G.mod I.φ fd stmts (some e) I.scopes0 I.vm0 I.lm0).envE.nv ≤ G.F
-  okS : Frag.okGSs false stmts = true
+  okS : Frag.okGSs false true stmts = true
   okE : Frag.okGE e = true
   wsS : Frag.wsGSs G.mod g I.φ [] stmts (fnParts G.mod I.φ fd stmts (some e) I.scopes0 I.vm0 I.lm0).envB = true
   wsE : Frag.wsGE (fnParts G.mod I.φ fd stmts (some e) I.scopes0 I.vm0 I.lm0).envS.scopes I.φ e = true
@@ -53,6 +53,7 @@ structure GCtx.OK (G : GCtx) : Prop where
   base : 0 ≤ G.B
   println : G.s.globals.lookup "println" = none
   noPrintFn : resolveFn G.cfg.prog G.mod "println" = none
+  noThrowFn : resolveFn G.cfg.prog G.mod "throw" = none
 
 /-! ## Pure expressions inside the general fragment -/
 
@@ -350,6 +351,9 @@ def SimArgs (G : GCtx) (A : Act) (ip n : Nat) (stk : List SVal) (mem : List (Int
           (vals.map (⟨·, none⟩) ++ stk) mem' st'.world ∧ MemLe A.mp mem mem'
   | (.error (.fatal kd m sp), st') =>
     kd ≠ "StackOverFlow" → RunsF G.code G.lim G.s A.fn A.rest A.mp ip stk mem st.world kd m sp st'.world
+  | (.error (.throw msg sp), st') =>
+    st' = { st with out := st'.out, heap := st'.heap } ∧
+      ∃ mem', RunsT G A.fn A.rest A.mp ip stk mem st.world msg sp mem' st'.world ∧ MemLe A.mp mem mem'
   | (.error (.unsupported _), _) => True
   | (.error .timeout, _) => True
   | _ => False
@@ -403,10 +407,19 @@ theorem SimGE.error_n {G A ip n stk mem st c st1} (n' : Nat) (h : SimGE G A ip n
     SimGE G A ip n' stk mem st (.error c, st1) := by
   cases c <;> first | trivial | exact h
 
-theorem SimGE.error_after {G : GCtx} {A : Act} {ip n stk mem st c st1 ip1 stk1 mem1} {st0 : St} (n' : Nat)
-    (h0 : Runs G.code G.lim G.s A.fn A.rest A.mp ip stk mem st0.world ip1 stk1 mem1 st.world)
-    (h : SimGE G A ip1 n stk1 mem1 st (.error c, st1)) : SimGE G A ip n' stk mem st0 (.error c, st1) := by
-  cases c <;> first | trivial | exact h.elim | exact fun hk => h0.fatal (h hk)
+theorem frame_trans {st0 st st1 : St} (h0 : st = { st0 with out := st.out, heap := st.heap })
+    (h1 : st1 = { st with out := st1.out, heap := st1.heap }) : st1 = { st0 with out := st1.out, heap := st1.heap } := by
+  rw [h1, h0]
+
+/-- An error of a later part, after a first part that completed (leaving `ys` on the stack). -/
+theorem SimGE.error_after {G : GCtx} {A : Act} {ip n stk mem st c st1 ip1 mem1} {st0 : St} (n' : Nat)
+    (ys : List SVal)
+    (h0 : Runs G.code G.lim G.s A.fn A.rest A.mp ip stk mem st0.world ip1 (ys ++ stk) mem1 st.world)
+    (hfr : st = { st0 with out := st.out, heap := st.heap }) (hml : MemLe A.mp mem mem1)
+    (h : SimGE G A ip1 n (ys ++ stk) mem1 st (.error c, st1)) : SimGE G A ip n' stk mem st0 (.error c, st1) := by
+  cases c <;> first | trivial | exact h.elim | exact fun hk => h0.fatal (h hk) | skip
+  obtain ⟨hfr1, mem2, hT, hml2⟩ := h
+  exact ⟨frame_trans hfr hfr1, mem2, Runs.throw ys h0 hT, hml.trans hml2⟩
 
 /-! ## Entering and leaving a call -/
 
@@ -432,6 +445,24 @@ theorem RunsF.call {G : GCtx} {A : Act} (hA : A.OK G) {ipc : Nat} {g : String} {
   rw [execHN_add, execHN_one, exec1H_of_next (mkS_callImm G.code G.lim G.s A.fn ipc A.rest A.mp k stk mem out A.c hA.code g sp hx)]
   simp only [e]
 
+/-- A call whose callee ends in an uncaught exception, after the arguments `ys` were pushed. -/
+theorem RunsT.of_call {G : GCtx} {A : Act} (hA : A.OK G) {ip ipc : Nat} {g : String} {sp : Span}
+    {ys stk : List SVal} {mem mem1 mem' : List (Int × Val)} {out out1 out' : World} {msg : String} {tsp : Span}
+    (h1 : Runs G.code G.lim G.s A.fn A.rest A.mp ip stk mem out ipc (ys ++ stk) mem1 out1)
+    (hx : A.c[ipc]? = some (.callImm g, sp))
+    (h : RunsCallT G g (⟨A.fn, ipc + 1⟩ :: A.rest) A.mp (ys ++ stk) stk mem1 out1 msg tsp mem' out') :
+    RunsT G A.fn A.rest A.mp ip stk mem out msg tsp mem' out' := by
+  intro k
+  obtain ⟨k1, e1⟩ := h1 k
+  obtain ⟨k2, s1, frames', mp', xs, e2, e3⟩ := h (k + k1 + 1)
+  refine ⟨k1 + (1 + k2), s1, frames', ipc + 1, mp', xs, ?_, ?_⟩
+  · rw [execHN_add, e1]
+    simp only []
+    rw [execHN_add, execHN_one, exec1H_of_next (mkS_callImm G.code G.lim G.s A.fn ipc A.rest A.mp (k + k1) (ys ++ stk) mem1
+      out1 A.c hA.code g sp hx)]
+    exact e2
+  · rw [e3]; simp only [Nat.add_assoc]
+
 theorem ρS_push (scopes : CScopes) : ρS ([] :: scopes) = ρS scopes := by
   funext x
   simp [ρS, List.findSome?_cons]
@@ -443,5 +474,28 @@ theorem resolved_push (scopes : CScopes) (xs : List String) :
 theorem callsOK_push (scopes : CScopes) (φ : String → Option String) (xs : List String) :
     Frag.callsOK ([] :: scopes) φ xs = Frag.callsOK scopes φ xs := by
   simp [Frag.callsOK, ρS_push]
+
+/-! ## Contexts that differ in the base state -/
+
+/-- The context with another handler stack in the base state. -/
+def GCtx.withH (G : GCtx) (hs : List Handler) : GCtx := { G with s := HmsProofs.Sim.withH G.s hs }
+
+theorem FnOK.withH {G : GCtx} {g fd I stmts e} (h : FnOK G g fd I stmts e) (hs : List Handler) :
+    FnOK (G.withH hs) g fd I stmts e :=
+  { name := h.name, body := h.body, params := h.params, code := h.code, placed := h.placed, inj := h.inj
+    vars := h.vars, slot := h.slot, frame := h.frame, okS := h.okS, okE := h.okE, wsS := h.wsS, wsE := h.wsE
+    tParams := h.tParams, tIdents := h.tIdents, tVars := h.tVars, key := h.key, outer := h.outer
+    phi := h.phi }
+
+theorem GCtx.OK.withH {G : GCtx} (h : G.OK) (hs : List Handler) : (G.withH hs).OK :=
+  { prog := fun g fd hK hf => by
+      obtain ⟨I, stmts, e, hFn⟩ := h.prog g fd hK hf
+      exact ⟨I, stmts, e, hFn.withH hs⟩
+    room := h.room, base := h.base, println := h.println, noPrintFn := h.noPrintFn, noThrowFn := h.noThrowFn }
+
+theorem Act.OK.withH {G : GCtx} {A : Act} (h : A.OK G) (hs : List Handler) (rt : Bool) :
+    ({ A with rt := rt } : Act).OK (G.withH hs) :=
+  { code := h.code, inj := h.inj, slot := h.slot, lo := h.lo, hi := h.hi, phi := h.phi, key := h.key
+    println := h.println, fnName := h.fnName }
 
 end HmsProofs.Sim
